@@ -370,7 +370,7 @@ fn prop_text(t: &mut Tape) -> String {
     for _ in 0..n {
         match t.weighted(&[4, 4, 1]) {
             0 => s.push_str(t.pick(&["a", "b", "key", "v", "1", "x.y", "A"])),
-            1 => s.push_str(t.pick(&["=", ":", "#", "!", " ", "  ", "\n", "\t", "\\", "é", "ß", "日本", "😀", "\r", "\u{a0}", "\"", "'", "%", "$", "{", "\\n", "\\u0041", "\u{c}", "\u{ff}", "\u{80}", "\u{2028}"])),
+            1 => s.push_str(t.pick(&["=", ":", "#", "!", " ", "  ", "\n", "\t", "\\", "é", "ß", "日本", "😀", "\r", "\u{a0}", "\"", "'", "%", "$", "{", "\\n", "\\u0041", "\u{c}", "\u{ff}", "\u{80}", "\u{2028}", "\u{feff}", "\u{feff}", "\u{85}"])),
             _ => {
                 let c = crate::gen::any_char(t);
                 s.push(c)
